@@ -1068,9 +1068,126 @@ def discarded_results(ctx, rule, prefixes, what):
                                           'never called on the remaining ones (`%s` in %s)' % (n_.func.id, c_.func.attr, ast.unparse(n_)[:80], fn.qn),
                                           key='%s|short-circuit|%s' % (rule, fn.qn))
                             break
+    single_step_cursors(ctx, rule, fns, what)
     for site_, names_, src_ in late_bound_in(fns, with_yield=False):
         ctx.violation(rule, what, site_, 'the deferred step `%s` reads the loop variable%s %s at call time, i.e. after the loop has moved on: every collected callable works on the last element'
                       % (src_[:70], 's' if len(names_) > 1 else '', ', '.join(names_)), key='%s|late-binding|%s' % (rule, site_.split(':')[0]))
+
+
+def _unconstrained_question(M, fn, seen=None):
+    """True when nothing bounds how far the question put to `fn` moves between two calls: fn is public API, or a caller hands its own parameter straight through and is
+    itself unconstrained, or a call site sits under a condition inside a loop (iterations are skipped) - returns a short reason, else None."""
+    seen = seen or set()
+    if fn.qn in seen:
+        return None
+    seen.add(fn.qn)
+    name = fn.qn.split('.')[-1]
+    if not name.startswith('_'):
+        return '%s is public: any instant may follow any other' % fn.qn
+    for caller, call in calls_named(M, name):
+        if caller is fn:
+            continue
+        pm = parent_map(caller.node)
+        n_, cond = call, None
+        while n_ in pm:
+            par = pm[n_]
+            if isinstance(par, ast.If) and n_ is not par.test:
+                cond = cond or 'if %s' % ast.unparse(par.test)[:50]
+            elif isinstance(par, ast.IfExp) and n_ is not par.test:
+                cond = cond or 'if %s' % ast.unparse(par.test)[:50]
+            elif isinstance(par, ast.BoolOp) and n_ is not par.values[0]:
+                cond = cond or 'after `%s %s`' % (ast.unparse(par.values[0])[:40], 'and' if isinstance(par.op, ast.And) else 'or')
+            if isinstance(par, (ast.For, ast.While)) and n_ in par.body:
+                # ... or an earlier statement of the loop body leaves the iteration (if ...: continue)
+                for st_ in par.body[:par.body.index(n_)]:
+                    if isinstance(st_, ast.If) and any(isinstance(x_, ast.Continue) for x_ in ast.walk(st_)):
+                        cond = cond or 'unless `%s` (continue)' % ast.unparse(st_.test)[:50]
+                if cond is not None:
+                    return 'the call in %s is made only %s inside its loop, so events go by without a call' % (caller.qn, cond)
+            n_ = par
+        r_ = _unconstrained_question(M, caller, seen)
+        if r_ is not None and any(isinstance(a_, ast.Name) and a_.id in {x_.arg for x_ in caller.node.args.args} for a_ in call.args):
+            return 'reached from %s with its own argument; %s' % (caller.qn, r_)
+    return None
+
+
+def single_step_cursors(ctx, rule, fns, what):
+    """A cursor kept between calls (self._cursor into a sorted list, self._session drawn from a generator) and brought up to date with ONE conditional step -
+    `if seq[cursor] < dt: cursor += 1` - is right only while no two entries go by between consecutive questions.  Where nothing bounds the question (public method, a
+    call that is skipped under a condition) the catch-up has to be a loop (`while`): after a longer gap the cursor rests on an entry that has already gone by."""
+    n = 0
+    ORD = (ast.Lt, ast.LtE, ast.Gt, ast.GtE)
+    for fn in fns:
+        if not isinstance(fn.node, (ast.FunctionDef,)) or not fn.node.args.args or fn.node.args.args[0].arg != 'self':
+            continue
+        params = {a_.arg for a_ in fn.node.args.args[1:]}
+        if not params:
+            continue
+        # locals that stand for a field: c = self.X ... self.X = c
+        alias = {}
+        for s_ in ast.walk(fn.node):
+            if isinstance(s_, ast.Assign) and len(s_.targets) == 1:
+                t_, v_ = s_.targets[0], s_.value
+                if isinstance(t_, ast.Name) and isinstance(v_, ast.Attribute) and isinstance(v_.value, ast.Name) and v_.value.id == 'self':
+                    alias.setdefault(t_.id, [None, None])[0] = v_.attr
+                if isinstance(v_, ast.Name) and isinstance(t_, ast.Attribute) and isinstance(t_.value, ast.Name) and t_.value.id == 'self':
+                    alias.setdefault(v_.id, [None, None])[1] = t_.attr
+        persisted = {k_: v_[0] for k_, v_ in alias.items() if v_[0] is not None and v_[0] == v_[1]}
+
+        def cursor_of(t_):
+            if isinstance(t_, ast.Name) and t_.id in persisted:
+                return t_.id, 'self.' + persisted[t_.id]
+            if isinstance(t_, ast.Attribute) and isinstance(t_.value, ast.Name) and t_.value.id == 'self':
+                return 'self.' + t_.attr, 'self.' + t_.attr
+            return None
+        pm = parent_map(fn.node)
+        for s_ in ast.walk(fn.node):
+            if not isinstance(s_, ast.If) or s_.orelse:
+                continue
+            n_, looped = s_, False
+            while n_ in pm:
+                n_ = pm[n_]
+                if isinstance(n_, (ast.For, ast.While, ast.AsyncFor)):
+                    looped = True
+            if looped:
+                continue
+            adv = None
+            for b_ in s_.body:
+                if isinstance(b_, ast.AugAssign) and isinstance(b_.op, ast.Add) and isinstance(b_.value, ast.Constant) and b_.value.value == 1:
+                    adv = cursor_of(b_.target) and (cursor_of(b_.target), 'index')
+                elif isinstance(b_, ast.Assign) and len(b_.targets) == 1 and isinstance(b_.value, ast.Call) and isinstance(b_.value.func, ast.Name) and b_.value.func.id == 'next' \
+                        and b_.value.args and cursor_of(b_.value.args[0]) and cursor_of(b_.targets[0]) and cursor_of(b_.targets[0])[1].startswith('self.'):
+                    adv = (cursor_of(b_.targets[0]), 'drawn')
+                if adv:
+                    break
+            if not adv:
+                continue
+            (cname, fld), kind = adv
+            n += 1
+            hit = None
+            for c_ in ast.walk(s_.test):
+                if not isinstance(c_, ast.Compare) or len(c_.ops) != 1 or not isinstance(c_.ops[0], ORD):
+                    continue
+                sides = [c_.left, c_.comparators[0]]
+                for a_, b_ in (sides, sides[::-1]):
+                    if kind == 'index':
+                        through = any(isinstance(x_, ast.Subscript) and ast.unparse(x_.slice) == cname for x_ in ast.walk(a_))
+                    else:
+                        through = any(isinstance(x_, ast.Attribute) and ast.unparse(x_.value) == cname for x_ in ast.walk(a_))
+                    asks = any(isinstance(x_, ast.Name) and x_.id in params for x_ in ast.walk(b_)) and not any(isinstance(x_, ast.Subscript) and ast.unparse(x_.slice) == cname for x_ in ast.walk(b_))
+                    if through and asks:
+                        hit = c_
+            if hit is None:
+                continue
+            why = _unconstrained_question(ctx.M, fn)
+            if why is None:
+                ctx.note('%s: %s advances the kept cursor %s by one conditional step (`if %s`); every caller puts its questions unconditionally, left to the rules about the loop'
+                         % (rule, fn.qn, fld, ast.unparse(s_.test)[:60]))
+                continue
+            ctx.violation(rule, what, fn.site(s_), 'READ!: %s brings the cursor %s, which is kept between calls, up to date with a single step (`if %s: %s`) where a loop is needed: %s, '
+                          'and after a gap of two or more entries the cursor rests on an entry that has already gone by (`while` catches up)'
+                          % (fn.qn, fld, ast.unparse(s_.test)[:70], ast.unparse(s_.body[0])[:40], why), key='%s|single-step-cursor|%s' % (rule, fn.qn))
+    ctx.holds(rule, what + ' (no kept cursor caught up by a single conditional step under an unbounded question; %d conditional advances looked at)' % n, None)
 
 
 def unread_atoms(M, got, expected=None, fn=None):
